@@ -241,6 +241,8 @@ namespace
         GlobalSystemVector gj = the_system_level.matrix_sys.create_vector_r();
         for(Index d = 0; d < nd; ++d) gj.local()(d, g_val(out.keys[d], 5));
         LocalVector base = splitter.join(gj);
+        // join() takes its argument by const reference: the distributed vector must come back untouched
+        for(Index d = 0; d < nd; ++d) if(gj.local()(d) != g_val(out.keys[d], 5)) sim::fail("SPLITTER", "Splitter::join modified its input vector: DOF holds " + std::to_string(gj.local()(d)) + " after the join, " + std::to_string(g_val(out.keys[d], 5)) + " before");
         if(splitter.is_root() && !splitter.is_single())
         {
           out.base_keys = dof_keys(domain.front().level_b().space);
